@@ -12,6 +12,13 @@ Writes coq/gen/C12Consts.v:
   LOCAL_ACK_DELAY_EXPONENT             `self._local_ack_delay_exponent = <int>` in __init__
   MIN_FRAME_CAPACITY                   PACKET_NUMBER_MAX_SIZE - PACKET_NUMBER_SEND_SIZE (start_frame's floor for the first
                                        frame of a packet)
+  CAP_ACK_NOW (bool)                   the tail of receive_datagram contains
+                                       `if space.ack_at is not None and len(space.ack_queue) >= MAX_ACK_RANGES:
+                                            space.ack_at = min(space.ack_at, now)`  (docs/C12-fix-2.patch); false when no
+                                       statement of receive_datagram mentions MAX_ACK_RANGES; anything else fails closed
+  PACING_LE (bool)                     the pacing test of _write_application is `space.ack_at is None or space.ack_at > now`
+                                       (pacing skipped when ack_at <= now: true) or `... >= now` (skipped only when
+                                       ack_at < now: false); anything else fails closed
 Also checks the shape of the two expressions the model copies: the capacity argument of the ACK start_frame
 (`ACK_FRAME_CAPACITY + 2 * UINT_VAR_MAX_SIZE * (len(space.ack_queue) - 1)`) and the cap loop
 (`while len(space.ack_queue) > MAX_ACK_RANGES: space.ack_queue.shift()`).
@@ -142,6 +149,35 @@ def read_consts():
     if ast.unparse(lp.test) != "len(space.ack_queue) > MAX_ACK_RANGES" or \
             [ast.unparse(b) for b in lp.body] != ["space.ack_queue.shift()"]:
         raise GenError("ACK range cap loop changed: %s" % ast.unparse(lp))
+    # the two behaviours of docs/C12-fix-2.patch, probed from the source
+    rd = _func(conn, "QuicConnection", "receive_datagram")
+    mentions = [n for n in ast.walk(rd) if isinstance(n, (ast.If, ast.While, ast.Assign, ast.Expr))
+                and any(isinstance(x, ast.Name) and x.id == "MAX_ACK_RANGES" for x in ast.walk(n))
+                and not any(isinstance(ch, (ast.If, ast.While, ast.For, ast.Try, ast.With)) and ch is not n
+                            and any(isinstance(x, ast.Name) and x.id == "MAX_ACK_RANGES" for x in ast.walk(ch))
+                            for ch in ast.walk(n))]
+    if not mentions:
+        c["CAP_ACK_NOW"] = False
+    elif (len(mentions) == 1 and isinstance(mentions[0], ast.If) and not mentions[0].orelse
+          and ast.unparse(mentions[0].test) == "space.ack_at is not None and len(space.ack_queue) >= MAX_ACK_RANGES"
+          and [ast.unparse(b) for b in mentions[0].body] == ["space.ack_at = min(space.ack_at, now)"]):
+        c["CAP_ACK_NOW"] = True
+    else:
+        raise GenError("receive_datagram uses MAX_ACK_RANGES in an unknown way: %s" % [ast.unparse(m)[:120] for m in mentions])
+    wa = _func(conn, "QuicConnection", "_write_application")
+    tests = [ast.unparse(n.test) for n in ast.walk(wa) if isinstance(n, ast.If)
+             and ast.unparse(n.test).startswith("space.ack_at is None or space.ack_at")]
+    t = _one(tests, "pacing test `space.ack_at is None or space.ack_at ... now` in _write_application")
+    if t == "space.ack_at is None or space.ack_at >= now":
+        c["PACING_LE"] = False
+    elif t == "space.ack_at is None or space.ack_at > now":
+        c["PACING_LE"] = True
+    else:
+        raise GenError("pacing test changed: %s" % t)
+    ackw = [ast.unparse(n.test) for n in ast.walk(wa) if isinstance(n, ast.If)
+            and ast.unparse(n.test).startswith("space.ack_at is not None and space.ack_at")]
+    if ackw != ["space.ack_at is not None and space.ack_at <= now"]:
+        raise GenError("ACK write test of _write_application changed: %s" % ackw)
     return c
 
 
@@ -150,7 +186,10 @@ def generate():
     lines = ["(* GENERATED by tools/gen/c12_consts.py from the tree under check -- do not edit *)",
              "From Coq Require Import ZArith.", "Open Scope Z_scope.", ""]
     for k in sorted(c):
-        lines.append("Definition %s : Z := %d." % (k, c[k]))
+        if isinstance(c[k], bool):
+            lines.append("Definition %s : bool := %s." % (k, "true" if c[k] else "false"))
+        else:
+            lines.append("Definition %s : Z := %d." % (k, c[k]))
     text = "\n".join(lines) + "\n"
     path = os.path.join(VERIF, "coq", "gen", "C12Consts.v")
     os.makedirs(os.path.dirname(path), exist_ok=True)
